@@ -19,7 +19,7 @@ import ast
 from sa.values import *
 from sa.lin import Lin
 from sa.model import AnalysisError, norm_text
-from .common import world, short
+from .common import as_update, world, short
 from .c11 import subterms
 
 
@@ -69,8 +69,9 @@ class DRBG(object):
                         and _callee(v.func.value) == "hmac.new" and len(v.func.value.args) >= 2 and _name(v.func.value.args[1]) == n.targets[0].id:
                     self.vvar = n.targets[0].id
                     self.kvar = _name(v.func.value.args[0])
-            if isinstance(n, ast.AugAssign) and isinstance(n.op, ast.Add) and isinstance(n.target, ast.Name) and isinstance(n.value, ast.Name):
-                self.tvar = (n.target.id, n.value.id)
+            u = as_update(n) if isinstance(n, (ast.AugAssign, ast.Assign)) else None
+            if u and u[1] is ast.Add and isinstance(u[0], ast.Name) and isinstance(u[2], ast.Name):
+                self.tvar = (u[0].id, u[2].id)
             if isinstance(n, ast.For) and isinstance(n.iter, ast.Name):
                 self.bx = n.iter.id
         if not (self.kvar and self.vvar and self.tvar and self.tvar[1] == self.vvar):
@@ -118,7 +119,8 @@ class DRBG(object):
             if isinstance(b, ast.Expr) and isinstance(b.value, ast.Call) and isinstance(b.value.func, ast.Attribute) and b.value.func.attr == "update" \
                     and _name(b.value.func.value) == K and b.value.args and _name(b.value.args[0]) == _name(s.target):
                 return [("K-feed-bx",)]
-        if isinstance(s, ast.AugAssign) and _name(s.target) == T and _name(s.value) == V and isinstance(s.op, ast.Add):
+        u_ = as_update(s) if isinstance(s, (ast.AugAssign, ast.Assign)) else None
+        if u_ and _name(u_[0]) == T and _name(u_[2]) == V and u_[1] is ast.Add:
             return [("T-append",)]
         if isinstance(s, ast.While):
             return [("while", norm_text(s.test), self.events(s.body))]
@@ -308,8 +310,9 @@ def run(chk):
             hs = n.handlers
             if len(hs) == 1 and isinstance(hs[0].type, ast.Name) and hs[0].type.id == "RSZeroError" and len(hs[0].body) == 1:
                 b = hs[0].body[0]
-                okh = isinstance(b, ast.AugAssign) and isinstance(b.op, ast.Add) and isinstance(b.value, ast.Constant) and b.value.value == 1
-                cnt = _name(b.target) if okh else None
+                ub = as_update(b)
+                okh = ub is not None and ub[1] is ast.Add and isinstance(ub[2], ast.Constant) and ub[2].value == 1
+                cnt = _name(ub[0]) if okh else None
                 # the same counter is what generate_k receives
                 okh &= any(isinstance(x, ast.keyword) and x.arg == W.p.func("rfc6979:generate_k").params[4] and _name(x.value) == cnt for x in ast.walk(f2.node)) or \
                     any(isinstance(x, ast.Call) and _callee(x) == "rfc6979.generate_k" and len(x.args) > 4 and _name(x.args[4]) == cnt for x in ast.walk(f2.node))
